@@ -14,6 +14,11 @@ from .state import State, Unsupported
 from .values import *
 
 
+class SpecNameUnbound(Unsupported, RuntimeError):
+    """a contract or loop spec names a local that the (changed) function no longer has: the function is undecided, the
+    checker does not crash (seed C18-16)"""
+
+
 class SpecEnv:
     def __init__(self, st: State, names: dict, old_st: State = None, old_names: dict = None,
                  prev_st: State = None, prev_names: dict = None):
@@ -77,6 +82,10 @@ class SpecEvalMixin:
             self.decls.fun("any_truthy", [INT], BOOL)
             from .smt import app as _app
             return _app("any_truthy", BOOL, v.t)
+        if isinstance(v, VDict):
+            # emptiness of a dictionary is not tracked: an unconstrained boolean (over-approximation - both branches are
+            # explored whatever the dictionary holds)
+            return self.decls.fresh("dict_truthy", BOOL)
         raise Unsupported(f"truthiness of {v!r}")
 
     def is_none_term(self, v: Value) -> T:
@@ -141,7 +150,7 @@ class SpecEvalMixin:
             r = self.resolve_global(n.id, spec=True)
             if r is not None:
                 return r
-            raise RuntimeError(f"spec name {n.id!r} is unbound")
+            raise SpecNameUnbound(f"spec name {n.id!r} is unbound")
         if isinstance(n, ast.Attribute):
             base = self._sp(env, n.value)
             return self.spec_attr(env, base, n.attr)
